@@ -420,6 +420,9 @@ def main(tier):
     rule_A(ck, units, 60 if tier == 'quick' else 90)
     rule_B(ck, units)
     rule_D(ck, units)
+    # hierarchies identical above the 16-thread SpGEMM switch: the row-merge kernel needs sorted operands (shared with C03)
+    import c03
+    c03.rule_F(ck, {k: v for k, v in units.items() if k == 'rt_builtin'})
     # "every interleaving yields the serial sweep's result" also needs the level-scheduled row kernel to be the serial one (shared with C06)
     import c06
     c06.rule_gs(ck, {k: v for k, v in units.items() if k == 'rt_builtin'})
